@@ -55,17 +55,21 @@ def is_snapshot(t: Term) -> bool:
 def run(check: Check) -> None:
     p = check.program
     context_semantics(check)
-    try:
-        context_rules(check)
-    except AnalysisError as ex:
-        # the structural rules recognise the snapshot / apply loop / try-finally / restore loop shape only; the behaviour itself has
-        # been decided above by abstract interpretation, so an unfamiliar shape is not an analysis failure
-        check.notes.append(f"structural rules Y2-Y4 not applicable to this shape of Settings.context: {ex}")
+    decorator_rule(check)  # Y1; the snapshot / apply / try-finally / restore shape rules Y2-Y4 of round 1 are subsumed by Y-sem and were removed
     param_table(check)
     early_binding(check, p)
     who_may_write(check, p)
     call_time_reads(check)
     fixtures(check)
+
+
+def decorator_rule(check: Check) -> None:
+    p = check.program
+    fn = p.func("Settings.context")
+    deco = [p.resolve_global(d, fn.module) if "." not in d else d for d in
+            [dotted(x.func if isinstance(x, ast.Call) else x) or "" for x in fn.node.decorator_list]]
+    check.require(any(d in ("contextlib.contextmanager",) for d in deco), "Y1", "Settings.context/decorator",
+                  f"context is a contextlib.contextmanager generator (decorators: {deco})", loc(fn))
 
 
 def context_rules(check: Check) -> None:
